@@ -464,23 +464,25 @@ def find_lasso(g, s, n, R, L, kmax=None):
 
 
 # ------------------------------------------------------------------ C15: get_fair_states
-def fair_states_task(n, nfair, perm=None):
+def fair_states_task(n, nfair, perm=None, fixed=None):
     """Kripke.get_fair_states(F) on all total structures with n states and all lists F of nfair state sets:
     (i) result is a subset of the fair states (always), (ii) equal to them outside known-finding class D7,
     (iii) the structure is not modified, no exception."""
     see.reset()
+    fixed = dict(fixed or {})
+    fv = lambda nm_: fixed[nm_] if nm_ in fixed else var(nm_)
     t0 = time.time()
     fair_names = ['f%d' % k for k in range(nfair)]
     extra = ['%s_%d' % (fn_, i) for fn_ in fair_names for i in range(n)]
     start_lemma_log(SEED)
     from .harness import KRIPKE_MODS
-    h = sym_kripke(n, aps=(), mods=KRIPKE_MODS, fold=True, care_total=True, extra=extra, perm=perm, bounds={})
+    h = sym_kripke(n, aps=(), mods=KRIPKE_MODS, fold=True, care_total=True, extra=extra, perm=perm, bounds={}, fixed=fixed)
     snap = snapshot(h.K)
     Fl = []
     for fn_ in fair_names:
         P = MSet()
         for i in range(n):
-            P.put(i, var('%s_%d' % (fn_, i)))
+            P.put(i, fv('%s_%d' % (fn_, i)))
         Fl.append(P)
     res = h.ctx.call(h.ctx.getattr1(h.K, 'get_fair_states'), [MList(Fl)], {})
     resv = vec(res, range(n))
@@ -489,17 +491,22 @@ def fair_states_task(n, nfair, perm=None):
     kinds = exc_kinds(h.fr)
     t1 = time.time()
     dp0 = oracles.Depths('stable')
-    oracles.fair_states(matrix(n), n, [[var('%s_%d' % (fn_, i)) for i in range(n)] for fn_ in fair_names], dp0)
-    d = Decider(total_text(n))
-    T2 = matrix(n)
-    fair2 = [[var('%s_%d' % (fn_, i)) for i in range(n)] for fn_ in fair_names]
+    oracles.fair_states(matrix(n, fixed=fixed), n, [[fv('%s_%d' % (fn_, i)) for i in range(n)] for fn_ in fair_names], dp0)
+    d = Decider(total_text(n, fixed=fixed))
+    T2 = matrix(n, fixed=fixed)
+    fair2 = [[fv('%s_%d' % (fn_, i)) for i in range(n)] for fn_ in fair_names]
     dp = oracles.Depths('fixed', inner=dp0.max_inner, outer=dp0.max_outer)
     want = oracles.fair_states(T2, n, fair2, dp)
-    rec = dict(kind='get_fair_states', n=n, nfair=nfair, encode_s=round(t1 - t0, 2), exc=kinds, encoded=encoded)
+    rec = dict(kind='get_fair_states', n=n, nfair=nfair, fixed=fixed, encode_s=round(t1 - t0, 2), exc=kinds, encoded=encoded)
     sound_bad = [b_and(a, b_not(w)) for a, w in zip(resv, want)]
     rec['sound'] = d.violated(*(sound_bad + [excg, unw, dp.unstable] + mut))
     if rec['sound'] == 'sat':
         rec['model'] = d.model_of(['(or false %s)' % ' '.join(d.term(b) for b in sound_bad + [excg, unw] + mut)])
+    # backward closure: a state with a successor in the result is in the result (fair paths can be prefixed) - on EVERY input
+    closed_bad = [b_and(T2[i][j], resv[j], b_not(resv[i])) for i in range(n) for j in range(n)]
+    rec['closed'] = d.violated(*closed_bad)
+    if rec['closed'] == 'sat':
+        rec['closed_model'] = d.model_of(['(or false %s)' % ' '.join(d.term(b) for b in closed_bad)])
     rec['all_inputs_exact'] = d.differ(resv, want)                      # expected sat while D7 is open
     if rec['all_inputs_exact'] == 'sat':
         rec['d7_model'] = d.differ_model(resv, want)
@@ -507,7 +514,9 @@ def fair_states_task(n, nfair, perm=None):
     rec['verdict'] = d.differ(resv, want)
     if rec['verdict'] == 'sat':
         rec['model'] = d.differ_model(resv, want)
-    rec['twin'] = d.holds(resv[0])
+    empty_set = any(all(fixed.get('%s_%d' % (fn_, i)) is False for i in range(n)) for fn_ in fair_names)
+    # (with a fairness set pinned to the empty set no path is fair: the result is empty on every structure, nothing to witness)
+    rec['twin'] = 'sat' if empty_set else d.holds(resv[0])
     rec['audit'] = d.audit(batch=1000)
     rec.update(d.stats())
     d.close()
@@ -532,6 +541,8 @@ print('no violation on this input')
 def fair_replay(rec, model, cond='got != want'):
     from .common import ROOT
     n = rec['n']
+    model = dict(model or {})
+    model.update(rec.get('fixed') or {})
     R = [(i, j) for i in range(n) for j in range(n) if model.get('t_%d_%d' % (i, j))]
     F = [[i for i in range(n) if model.get('f%d_%d' % (k, i))] for k in range(rec['nfair'])]
     path = write_replay('C15', FAIR_REPLAY % dict(root=ROOT, n=n, R=R, F=F, cond=cond))
